@@ -98,6 +98,12 @@ class KGFnWrapper:
                 return sym
         return None
 
+    def _to_klong_args(self, args):
+        # None marks an unfilled argument inside the interpreter (a projection); a None
+        # passed by a Python caller (e.g. a JSON null message) is a value: :undefined
+        return [KLONG_UNDEFINED if x is None else
+                self.klong._backend.kg_asarray(x) if isinstance(x, list) else x for x in args]
+
     def __call__(self, *args, **kwargs):
         # Try to resolve dynamically first if we have a symbol
         if self._sym is not None:
@@ -107,7 +113,7 @@ class KGFnWrapper:
                     # Use the current definition
                     if len(args) != current.arity:
                         raise RuntimeError(f"Klong function called with {len(args)} but expected {current.arity}")
-                    fn_args = [self.klong._backend.kg_asarray(x) if isinstance(x, list) else x for x in args]
+                    fn_args = self._to_klong_args(args)
                     return self.klong.call(KGCall(current.a, [*fn_args], current.arity))
             except KeyError:
                 # Symbol was deleted, fall through to original function
@@ -115,7 +121,7 @@ class KGFnWrapper:
 
         if len(args) != self.fn.arity:
             raise RuntimeError(f"Klong function called with {len(args)} but expected {self.fn.arity}")
-        fn_args = [self.klong._backend.kg_asarray(x) if isinstance(x, list) else x for x in args]
+        fn_args = self._to_klong_args(args)
         return self.klong.call(KGCall(self.fn.a, [*fn_args], self.fn.arity))
 
 
